@@ -97,13 +97,18 @@ def ob3_once(ck, tbn):
     """around an SVC the shim runs exactly once: follow hextb's run() for the two clock edges from 'the instruction before
     the SVC is about to retire' (time set beyond the reset window)"""
     mem = z3.Array('mem', z3.BitVecSort(32), z3.BitVecSort(32)); inb = z3.BitVec('inbyte', 8)
-    pc = z3.BitVec('pc', 21); a, b = z3.BitVec('areg', 32), z3.BitVec('breg', 32)
-    pc32 = z3.ZeroExt(11, pc)
+    a, b = z3.BitVec('areg', 32), z3.BitVec('breg', 32)
+    pc32 = z3.BitVecVal(100, 32)          # the four instructions occupy word 25 (their position does not matter: C03 decides fetch for every pc)
     i0 = fetch_byte(mem, pc32); i1 = fetch_byte(mem, pc32 + 1); i2 = fetch_byte(mem, pc32 + 2)
     sp = z3.Select(mem, z3.BitVecVal(1, 32))
-    assume = [z3.ULT(pc32, 4*MEMWORDS - 4), i0 == 0x41,          # LDBC 1: retires without touching areg or memory
-              i1 == 0xD3, z3.LShR(i2, 4) == 0x3,                 # SVC, then LDAC k
-              z3.Or(a == 1, a == 2), z3.ULT(sp, MEMWORDS - 3)]
+    i3 = fetch_byte(mem, pc32 + 3)
+    is_svc = lambda i: i == 0xD3
+    other = lambda i: z3.LShR(i, 4) == 0x4                        # LDBC k: retires without touching areg or memory
+    assume = [z3.ULT(pc32, 4*MEMWORDS - 8), i0 == 0x41,           # LDBC 1 retires first
+              z3.Or(is_svc(i1), other(i1)), z3.Or(is_svc(i2), other(i2)), other(i3),   # then two instructions, each an SVC or not
+              z3.Or(a == 1, a == 2), z3.ULT(sp, MEMWORDS - 3),
+              # the READ call's result slot must not be one of the words the instructions are fetched from (no self-modification here)
+              sp + 1 != z3.LShR(pc32, 2), sp + 1 != z3.LShR(pc32 + 3, 2)]
     E = shim_engine(tbn, [0, 0, 0, 0], mem, lambda k: inb)
     st, ctx, top, regs = new_top(tbn, E, mem)
     st.pc = list(st.pc) + assume
@@ -111,15 +116,15 @@ def ob3_once(ck, tbn):
     st, _ = E.run1('tb_settime', [ctx, 20], st)
     calls = []
     orig_out = E.stubs['_ZN3hex8HexSimIO6outputEci']; orig_in = E.stubs['_ZN3hex8HexSimIO5inputEi']
-    rs = E.run('tb_run', [ctx, top, 1], st)
+    rs = E.run('tb_run', [ctx, top, 2], st)          # three rising edges: the LDBC and the two following instructions retire
     for r in rs:
         if r.kind != 'ret':
             ck.violation(f"once:{r.kind}", f"run() around an SVC ends in {r.kind}: {r.val}", None); continue
         n_ev = len([e for e in r.st.events if e[0] in ('in', 'out')])
-        ck.obligation(n_ev == 1)
-        if n_ev != 1:
-            ok_, m = E.sat(r.st)
-            ck.violation("once:count", f"one SVC instruction is serviced {n_ev} times by hextb's run() (areg={model_int(m, a)})", None)
+        want = z3.If(is_svc(i1), 1, 0) + z3.If(is_svc(i2), 1, 0)
+        ok, m = ck.prove(E, r.st, want == n_ev, "every SVC that retires is serviced exactly once (also two adjacent SVCs)")
+        if not ok:
+            ck.violation("once:count", f"instructions {model_int(m, i1):#04x} {model_int(m, i2):#04x} retire but hextb's run() services {n_ev} system calls (areg={model_int(m, a)})", None)
     ck.engine(E, 'hextb run() around an SVC')
     ck.sample({'obligation': 'shim runs exactly once per SVC', 'paths': len(rs)})
 
